@@ -330,7 +330,8 @@ SPECS = {
         rule="cases (a set of ignore files with their lines) in which at least one probe is ignored and at least one is kept; each case is judged on 20 probes and 5 constructions of the filter",
         exhaustive=False,
         assumptions=["IgnoreScope.tla is the reference: nearest directory first, last matching line wins, path before its parents, then globals",
-                     "unspecified by the property and skipped: a directory versus an ignore file in that very directory; re-inclusion below an excluded parent; anchored global patterns seen from outside the origin",
+                     "not judged (git and the glob library differ, or the property leaves it open): a directory versus an ignore file in that very directory; re-inclusion below an excluded parent; a parent directory re-included by a nearer file while the path itself is ignored by a farther one; a directory d against a pattern d/**; anchored global patterns seen from outside the origin",
+                     "wherever the specification has an opinion on a path inside the origin, `git check-ignore --no-index` shares it (tools/gitoracle.py; coverage.git_oracle)",
                      "the single-pattern glob semantics of the reference cover only the grammar of the pattern table in the spec"],
     ),
     "C20": dict(
@@ -476,5 +477,16 @@ def run(prop, tier, replay=None):
         samples=samples, mismatch_kinds=seen_keys,
         checker_cmd="tlc %s -config {%s} ; pure_runner %s" % (spec["module"], ",".join(laws), spec["runner"]),
     )
+    if prop == "C03" and not replay:
+        # the specification itself against git: wherever IgnoreScope.tla has an opinion, `git check-ignore`
+        # must share it (a disagreement is a defect of the specification, not of watchexec: it is recorded
+        # in the evidence and printed, it does not make the check fail)
+        q = subprocess.run([sys.executable, os.path.join(os.path.dirname(os.path.abspath(__file__)), "gitoracle.py"), cp,
+                            "400" if tier == "quick" else "4000"], stdout=subprocess.PIPE, stderr=subprocess.STDOUT, text=True)
+        m = re.search(r"cases compared with git: (\d+), probes: (\d+), disagreements: (\d+)", q.stdout)
+        if m:
+            coverage["git_oracle"] = dict(cases=int(m.group(1)), probes=int(m.group(2)), disagreements=int(m.group(3)))
+            if int(m.group(3)):
+                sys.stderr.write("IgnoreScope.tla disagrees with git check-ignore:\n" + q.stdout[-2000:])
     vlib.write_evidence(prop, tier, coverage, time.time() - t0, len(violations), spec["assumptions"])
     return violations
